@@ -11,6 +11,18 @@
 (* serves at most ceil(larger/smaller)".  A key may stay unassigned only    *)
 (* while its handler waits, and it may start waiting only if the offered    *)
 (* partner was full at that moment.                                         *)
+(*                                                                          *)
+(* offerdropped = the start of a collection that is already dropped         *)
+(* upstream: an offer like any other (the statement knows no exception).    *)
+(*                                                                          *)
+(* Concurrent collection starts (events offerstart / connect / acquire /    *)
+(* settle of the real-manager driver): a call is an offer from the moment   *)
+(* it RETURNS (field ret lists the calls that returned during the step);    *)
+(* while it is in flight its channel is neither required to be assigned nor *)
+(* to wait.  Stable / exactly one / Balanced are judged on every dump, in   *)
+(* flight or not.  While a parked call holds the manager's lock the list of *)
+(* waiting handlers cannot be read (field locked): the offers completed by  *)
+(* such a step are kept (defr) and judged with the next readable dump.      *)
 EXTENDS Integers, Sequences, FiniteSets, TLC, Json, IOUtils, SequencesExt
 
 Traces == ndJsonDeserialize(IOEnv.TRACE_FILE)
@@ -27,8 +39,9 @@ VARIABLES tr, l,
           inuse,           \* key-side channels offered so far
           wait,            \* key-side channels whose handler waits
           excess,          \* KF C16_stale_forward: tolerated over-quota assignments per value channel
-          tainted          \* KF C16_sourcekey_by_name: the mapping table was corrupted by the known defect
-tvars == <<tr, l, cS, cT, names, asg, inuse, wait, excess, tainted>>
+          tainted,         \* KF C16_sourcekey_by_name: the mapping table was corrupted by the known defect
+          defr             \* offers <<key, value>> completed while the waiting list could not be read, not yet judged
+tvars == <<tr, l, cS, cT, names, asg, inuse, wait, excess, tainted, defr>>
 
 Ceil(a, b) == IF a % b = 0 THEN a \div b ELSE a \div b + 1
 Max2(a, b) == IF a >= b THEN a ELSE b
@@ -36,7 +49,7 @@ Min2(a, b) == IF a >= b THEN b ELSE a
 
 TInit == /\ tr \in 1..Len(Traces) /\ l = 1
          /\ cS = 0 /\ cT = 0 /\ names = "" /\ asg = {} /\ inuse = {} /\ wait = {}
-         /\ excess = <<>> /\ tainted = FALSE
+         /\ excess = <<>> /\ tainted = FALSE /\ defr = {}
 
 KeyIdx(srcKey) == IF srcKey THEN 1 ELSE 2
 ValIdx(srcKey) == IF srcKey THEN 2 ELSE 1
@@ -50,17 +63,26 @@ TStepInit ==
     /\ e.S \in 1..16 /\ e.T \in 1..16
     /\ cS' = e.S /\ cT' = e.T /\ names' = e.names
     /\ e.map = <<>> /\ e.waiting = <<>>
-    /\ UNCHANGED <<asg, inuse, wait, excess, tainted>>
+    /\ UNCHANGED <<asg, inuse, wait, excess, tainted, defr>>
 
 TStepOp ==
     LET e       == Traces[tr].events[l]
         srcKey  == cS >= cT
         quota   == Ceil(Max2(cS, cT), Min2(cS, cT))
         newAsg  == {<<m.s, m.t>> : m \in ToSet(e.map)}
-        newWait == ToSet(e.waiting)
+        locked  == IF "locked" \in DOMAIN e THEN e.locked ELSE FALSE
+        newWait == IF locked THEN wait ELSE ToSet(e.waiting)
         okey    == IF srcKey THEN e.s ELSE e.t          \* offer events
         oval    == IF srcKey THEN e.t ELSE e.s
-        newUse  == IF e.op \in {"offer", "offerfail"} THEN inuse \cup {okey} ELSE inuse
+        \* the offers completed by this step as <<key, value>>: the synchronous one, the concurrent calls that returned
+        retd    == IF "ret" \in DOMAIN e THEN {<<IF srcKey THEN r.s ELSE r.t, IF srcKey THEN r.t ELSE r.s>> : r \in ToSet(e.ret)} ELSE {}
+        sync    == e.op \in {"offer", "offerfail", "offerdropped"} /\ e.enabled
+        done    == retd \cup (IF sync THEN {<<okey, oval>>} ELSE {})
+        offers  == IF locked THEN {} ELSE done \cup defr         \* the offers judged with this dump
+        newUse  == inuse \cup {o[1] : o \in offers}
+        \* the table as the waiting call saw it: the previous dump when exactly the offer of this step is judged, otherwise
+        \* not older than an earlier dump and (assignments only grow) not newer than this one
+        seen    == IF Cardinality(offers) <= 1 /\ defr = {} THEN asg ELSE newAsg
         vals    == {p[ValIdx(srcKey)] : p \in newAsg}
         keys    == {p[KeyIdx(srcKey)] : p \in newAsg}
         \* known finding 1: a forwarded channel is taken although it is full by now
@@ -77,8 +99,9 @@ TStepOp ==
         taint2  == tainted \/ badkey
     IN
     /\ l > 1 /\ cS > 0
-    /\ e.op \in {"offer", "offerfail", "fwdcheck", "handoff"}
+    /\ e.op \in {"offer", "offerfail", "offerdropped", "fwdcheck", "handoff", "offerstart", "connect", "acquire", "settle"}
     /\ asg' = newAsg /\ inuse' = newUse /\ wait' = newWait /\ excess' = exc2 /\ tainted' = taint2
+    /\ defr' = IF locked THEN defr \cup done ELSE {}
     /\ UNCHANGED <<cS, cT, names>>
     /\ (stale => PrintT("KF " \o Traces[tr].plan \o " C16_stale_forward"))
     /\ (badkey => PrintT("KF " \o Traces[tr].plan \o " C16_sourcekey_by_name"))
@@ -92,8 +115,8 @@ TStepOp ==
           /\ newWait \subseteq newUse
           /\ \A k \in newUse \ newWait : Cardinality(PartnersOfKey(newAsg, srcKey, k)) = 1   \* Total
           /\ \A k \in newWait : PartnersOfKey(newAsg, srcKey, k) = {}
-          /\ (e.op \in {"offer", "offerfail"} /\ okey \notin inuse /\ okey \in newWait)                 \* waiting must be justified
-                => CountOfVal(asg, srcKey, oval) >= quota
+          /\ \A o \in offers : (o[1] \notin inuse /\ o[1] \in newWait)                                \* waiting must be justified
+                => \E o2 \in offers : o2[1] = o[1] /\ CountOfVal(seen, srcKey, o2[2]) >= quota
           /\ (~e.enabled => newAsg = asg)
 
 TStep ==
